@@ -83,6 +83,18 @@ class SStr:
     @staticmethod
     def eq(ex, a, b):
         pa, pb = SStr.norm(a), SStr.norm(b)
+        # identical leading parts cancel (x + u == x + v  <=>  u == v)
+        k = 0
+        while k < len(pa) and k < len(pb) and _same_part(pa[k], pb[k]):
+            k += 1
+        if k:
+            pa, pb = pa[k:], pb[k:]
+            if not pa and not pb:
+                return True
+            if not pa or not pb:
+                rest = pa or pb
+                if any((isinstance(p, str) and p) or isinstance(p, Fmt) for p in rest):
+                    return False        # a non-empty remainder against the empty string
         # atoms: single-part strings compared through the uninterpreted sort
         if len(pa) == 1 and isinstance(pa[0], Atom) or len(pb) == 1 and isinstance(pb[0], Atom):
             return atom_eq(pa, pb)
@@ -115,6 +127,16 @@ class SStr:
 
 class SBytesLike:
     pass
+
+
+def _same_part(x, y):
+    if isinstance(x, str) and isinstance(y, str):
+        return x == y
+    if isinstance(x, Atom) and isinstance(y, Atom):
+        return x.name == y.name and x.lower == y.lower and x.term is y.term or (x.lower == y.lower and z3.eq(x.term, y.term))
+    if isinstance(x, Fmt) and isinstance(y, Fmt):
+        return x.spec == y.spec and x.value is y.value
+    return False
 
 
 def _unsup(pa, pb):
